@@ -311,6 +311,43 @@ def check_nested(rec, vals, vals2):
                      f'{ {c: got[c] for c in inner} }')
 
 
+def check_library_results(rec):
+    """aggregates over cells whose values come out of pycel's own numpy
+    based functions count them as the numbers they are"""
+    cells = {'E1': 1, 'E2': 2, 'E3': 4, 'F1': 1, 'F2': 2, 'F3': 3, 'A1': 5,
+             'B1': '=FACTDOUBLE(A1)', 'B2': '=SLOPE(E1:E3,F1:F3)',
+             'B3': '=INTERCEPT(E1:E3,F1:F3)', 'B4': '=FACTDOUBLE(4)+0'}
+    want_b = [15, 1.5, 2 + 1 / 3 - 1.5 * 2, 8]
+    formulas = {f'C{i + 1}': f'={func}(B1:B4)'
+                for i, func in enumerate(FUNCS)}
+    formulas['C6'] = '=SUMPRODUCT(B1:B4,B1:B4)'
+    formulas['C7'] = '=SUBTOTAL(9,B1:B4)'
+    formulas['C8'] = '=SUM(B1,B2,B3,B4)'
+    formulas['C9'] = '=COUNT(B1)+COUNT(B2)'
+    case = dict(kind='library-results')
+    rec.case(key=('library-results',), nontrivial=True,
+             labels=('library-results',), sample=case)
+    want = {f'C{i + 1}': expected(func, want_b)
+            for i, func in enumerate(FUNCS)}
+    want.update(C6=math.fsum(v * v for v in want_b),
+                C7=math.fsum(want_b), C8=math.fsum(want_b), C9=2)
+    for order in (sorted(formulas), sorted(formulas, reverse=True)):
+        try:
+            model = compile_spec({'sheets': {'S': dict(cells, **formulas)}})
+            for k in order:
+                got = model.evaluate(f'S!{k}')
+                if not ok(want[k], got):
+                    rec.fail(f'library-results:{formulas[k].split("(")[0][1:]}',
+                             case, f'{formulas[k]} over FACTDOUBLE / SLOPE / '
+                             f'INTERCEPT results {want_b} = {got!r}, '
+                             f'expected {want[k]!r}')
+                    return
+        except Exception as exc:
+            rec.fail(f'library-results:raises:{exc_key(exc)}', case,
+                     repr(exc)[:300])
+            return
+
+
 def check_forms(rec, h, w, vals):
     """the same rectangle written as a bounded range, as whole columns and
     as whole rows of a data sheet (one workbook after another in one process,
@@ -398,6 +435,7 @@ def run_shard(shard, rec):
         for h, w, vals in FIXED:
             check_rect(ctx, h, w, vals, 7)
             check_sumproduct(ctx, h, w, vals, vals[::-1], 7)
+        check_library_results(rec)
         check_nested(rec, [1, 2, 3], [4, 5, 6])
         check_nested(rec, [1, 'a', True], [None, 2.5, '3'])
     elif kind == 'hyp':
@@ -458,7 +496,9 @@ def replay(case, rec):
             check_nested(rec, case[0], case[1])
         return
     kind = case['kind']
-    if kind == 'forms':
+    if kind == 'library-results':
+        check_library_results(rec)
+    elif kind == 'forms':
         check_forms(rec, case['h'], case['w'], case['vals'])
     elif kind == 'rect':
         check_rect((rec, env), case['h'], case['w'], case['vals'],
